@@ -3,6 +3,7 @@
 #define PAYLOAD_TABCHAR
 #define HAVE_STD_STRING
 #define CONTAINERS_MODEL
+#define FRAME_TAGS C05, C10   /* C10: "leave their arguments unchanged" */
 #include "prelude.h"
 #include "containers.h"
 
